@@ -70,6 +70,7 @@ def instances(tier, seed):
     # texts, one more coefficient row): the second call must bring the fragment's tables as they are at the time of that call
     add("ext:bond:twice-default-reparameterised", Ns=3, No=2, kind='bond', S=1, topo=0, tables='both', mode='twice-reparam', cost=60)
     add("ext:bond:empty-self:fragment-object-reused-and-edited-in-place", Ns=0, No=2, kind='bond', S=0, topo=0, tables='both', mode='empty-self-fragment-reused', cost=5)
+    add("ext:bond:map-filled-in-descending-key-order", Ns=3, No=3, kind='bond', S=1, topo=0, tables='both', mode='default', map_order='descending', extra_s=['xa'], extra_o=['xa'], cost=60)
     add("ext:angle:map-later-atom", Ns=3, No=3, kind='angle', S=1, topo=1, tables='both', mode='default', cost=60)
     if big:
         add("ext:bond:S2xO2:map", Ns=4, No=3, kind='bond', S=2, topo=0, tables='both', mode='default', cost=600)
@@ -133,7 +134,11 @@ def body(ctx, p):
     o_before = spec_from_state(o)
     if p['mode'] == 'default':
         m = build_map(ctx, No, Ns)
-        a.extend(o, structure_index_map=dict(m))
+        if p.get('map_order') == 'descending':
+            # the caller filled its dict starting from the LAST fragment atom: a map is a map whatever its insertion order
+            a.extend(o, structure_index_map=dict(reversed(list(m.items()))))
+        else:
+            a.extend(o, structure_index_map=dict(m))
         check_extend(ctx, sp, so, m, a, shared_offsets=None)
     elif p['mode'] == 'offsets':
         # ids supplied as already shared: the other's ids are used as they are (+ the given offsets)
